@@ -1039,7 +1039,14 @@ pub fn run_c09(tier: &str) -> i32 {
             // one message per fault kind
             let kind: String = f.split(':').next().unwrap_or("").chars().filter(|c| !c.is_ascii_digit()).collect();
             if msgs.insert(kind) {
-                report.violation(f.clone(), json!({"engine": "faults", "property": "C09", "case": f}));
+                // the mutated input is the tail of the message (after "input " / "accepted: " / "on <what>: ")
+                let input = f
+                    .rsplit_once("; input ")
+                    .map(|x| x.1)
+                    .or_else(|| f.split_once(" was accepted: ").map(|x| x.1))
+                    .unwrap_or("")
+                    .to_string();
+                report.violation(f.clone(), json!({"engine": "faults", "property": "C09", "case": f, "input": input}));
             }
         }
     }
@@ -1116,4 +1123,59 @@ pub fn run_c18_one(parser: &str, hex: &str) -> i32 {
         let _ = std::panic::catch_unwind(|| f(&input));
     }
     0
+}
+
+
+/// `plverif replay` for artefacts of engine G: the recorded input is fed to the recorded entry point twice
+pub fn replay(doc: &Value) -> i32 {
+    let rp = &doc["replay"];
+    let prop = rp["property"].as_str().unwrap_or("");
+    println!("recorded finding: {}", doc["message"].as_str().unwrap_or(""));
+    match prop {
+        "C18" => {
+            let parsers: Vec<Parser> = text_parsers().into_iter().chain(json_parsers()).collect();
+            let name = rp["parser"].as_str().unwrap_or("");
+            let input = rp["input"].as_str().unwrap_or("").to_string();
+            let Some(p) = parsers.iter().find(|p| p.0 == name) else {
+                println!("replay: unknown parser {name}");
+                return 2;
+            };
+            let f = p.1;
+            let run = || match std::panic::catch_unwind(|| f(&input)) {
+                Ok(true) => "Ok".to_string(),
+                Ok(false) => "Err".to_string(),
+                Err(_) => "PANIC".to_string(),
+            };
+            let (a, b) = (run(), run());
+            println!("parser {name} on {input:?}: first run {a}, second run {b}");
+            if a != b {
+                println!("MACHINERY-ERROR: replay diverged");
+                return 2;
+            }
+            if a == "PANIC" { 1 } else { 0 }
+        }
+        "C09" => {
+            let input = rp["input"].as_str().unwrap_or("").to_string();
+            if input.is_empty() {
+                println!("replay: this C09 finding carries no input text (in-memory fault); re-run ./check C09 quick");
+                return 0;
+            }
+            let run = || match std::panic::catch_unwind(|| PriceLevel::from_snapshot_json(&input)) {
+                Ok(Ok(l)) => format!("accepted: {}", l),
+                Ok(Err(e)) => format!("rejected: {e}"),
+                Err(_) => "PANIC".to_string(),
+            };
+            let (a, b) = (run(), run());
+            println!("from_snapshot_json: {a}");
+            if a != b {
+                println!("MACHINERY-ERROR: replay diverged");
+                return 2;
+            }
+            if a.starts_with("rejected") { 0 } else { 1 }
+        }
+        _ => {
+            println!("replay: the grids of {prop} are enumerated deterministically; re-run ./check {prop} quick to reproduce");
+            0
+        }
+    }
 }
